@@ -100,6 +100,7 @@ fn forced_model(i: usize) -> (ModelGame, Comp, bool, &'static str) {
 
 fn check(ctx: &Ctx, m: &ModelGame, comp: Comp, hash: bool, forced: Option<&str>, counting: bool) -> Result<(), Fail> {
 	let bytes = m.encode();
+	super::sibling_history(m, &bytes);
 	if counting {
 		ctx.eval();
 		let f = classify(ctx, m);
